@@ -1,7 +1,9 @@
 #!/bin/sh
-# regenerate the Makefile when the set of .v files changed, then make the given targets
+# regenerate the Makefile when the set of .v files changed, then make the given targets (under the same lock as the checks)
 cd /verif/coq || exit 1
-cur="$(find . -name '*.v' -not -path './Corr/*' | sed 's|^\./||' | sort)"
+exec 9>/verif/.lock
+flock 9
+cur="$(find . -name '*.v' -not -path './Corr/*' | sed 's|^\./||' | LC_ALL=C sort)"
 if [ ! -f Makefile ] || [ "$cur" != "$(cat .vfiles 2>/dev/null)" ]; then
   coq_makefile -f _CoqProject $cur -o Makefile >/dev/null && rm -f .Makefile.d && printf '%s' "$cur" > .vfiles
 fi
